@@ -31,4 +31,12 @@ def main():
     sys.exit(runner.run_check(args.prop.upper(), tier, seed, args.jobs))
 
 
-main()
+try:
+    main()
+except SystemExit:
+    raise
+except BaseException:       # a crash of the harness is never a verdict: exit code 2, not 1
+    import traceback
+    traceback.print_exc()
+    print('HARNESS ERROR: the check crashed', file=sys.stderr)
+    sys.exit(2)
